@@ -578,7 +578,8 @@ def b_rand_spd(rng, n):
 def run_all(ctx, cuqi, thorough):
     """all session-3 streams; the model lines of the streams are sent to the Lean driver in ONE batch"""
     gens = [gallery(ctx, cuqi, 40 if thorough else 6), observer_histories(ctx, cuqi, 8 if thorough else 1),
-            point_representations(ctx, cuqi, 8 if thorough else 2), glue_geometries(ctx, cuqi, 6 if thorough else 1)]
+            point_representations(ctx, cuqi, 8 if thorough else 2), glue_geometries(ctx, cuqi, 6 if thorough else 1),
+            noninjective_geometries(ctx, cuqi, 4 if thorough else 1)]
     reqs = []
     for g in gens:
         try:
@@ -597,6 +598,7 @@ def run_all(ctx, cuqi, thorough):
         except StopIteration:
             pass
     aliased_points(ctx, cuqi, 8 if thorough else 1)
+    inplace_mutations(ctx, cuqi, 8 if thorough else 1)
 
 
 # ----------------------------------------------------------------------------------------------------------------
@@ -1011,3 +1013,199 @@ def glue_geometries(ctx, cuqi, reps):
             ctx.fail(key, desc, f"vector of length {n}", f"shape {a.shape}", "neither a gradient vector nor a refusal"); continue
         f_dir = lambda z: float(direction @ np.asarray(mod.forward(np.asarray(z, dtype=float)), dtype=float).ravel())
         b.oracle_value(ctx, key, desc, f_dir, a, m_wp, in_support=True)
+
+
+# ----------------------------------------------------------------------------------------------------------------
+def noninjective_geometries(ctx, cuqi, reps):
+    """Domain geometries with their own `gradient` whose par2fun is NOT injective (x**2 with imap sqrt, x**4 with imap
+    f**0.25, cosh with imap arccosh), evaluated at points with negative / mixed-sign components: fun2par(par2fun(x)) = |x|
+    is not x there.  Model.gradient, Gaussian likelihood, Posterior and MultipleLikelihoodPosterior through matrix /
+    function+adjoint / jacobian models; Lean: `lik` with G = the Jacobian of par2fun AT x; oracle on the object's logd.
+    Generator protocol."""
+    b = _base()
+    D = cuqi.distribution
+    G = cuqi.geometry
+    from cuqi.model import Model, LinearModel
+    rng = random.Random(ctx.seed * 86028121 + 3)
+    cov = ctx.extra_cov.setdefault("noninjective_geometries", {})
+
+    def bump(k):
+        cov[k] = cov.get(k, 0) + 1
+
+    MAPS = {"square": (lambda p: p ** 2, lambda f: np.sqrt(f), lambda p: 2 * p),
+            "fourth": (lambda p: p ** 4, lambda f: np.asarray(f) ** 0.25, lambda p: 4 * p ** 3),
+            "cosh": (lambda p: np.cosh(p), lambda f: np.arccosh(f), lambda p: np.sinh(p))}
+    jobs = []; lines = []
+    for rep_i in range(reps):
+        for gname, (mp, imp, dmp) in MAPS.items():
+            for mk in ("matrix", "fun+adjoint", "jacobian"):
+                for target in ("model", "likelihood", "posterior", "multi"):
+                    n = rng.choice([2, 3]); m = rng.choice([2, 3])
+                    dom = G.MappedGeometry(G.Continuous1D(n), map=mp, imap=imp)
+                    dom.gradient = lambda direction, wrt, dmp=dmp: dmp(np.asarray(wrt, dtype=float)) * np.asarray(direction)
+                    A = np.array([[rng.randint(-2, 2) for _ in range(n)] for _ in range(m)], dtype=float)
+                    Bq = np.zeros((m, n)) if mk != "jacobian" else np.array([[rng.choice([0, 1, -1, 0.5]) for _ in range(n)] for _ in range(m)], dtype=float)
+                    rg = G.Continuous1D(m)
+                    with quiet():
+                        if mk == "matrix":
+                            mod = LinearModel(A, range_geometry=rg, domain_geometry=dom)
+                        elif mk == "fun+adjoint":
+                            mod = LinearModel(lambda f, A=A: A @ f, adjoint=lambda r, A=A: A.T @ r, range_geometry=rg, domain_geometry=dom)
+                        else:
+                            mod = Model(lambda f, A=A, Bq=Bq: A @ f + Bq @ (f * f), rg, dom, jacobian=lambda f, A=A, Bq=Bq: A + 2 * Bq * f[None, :])
+                    # mixed-sign point: at least one strictly negative component, none zero
+                    x = np.array([rng.choice([-1, 1]) * _dy(rng, 0.25, 1.5) for _ in range(n)])
+                    x[rng.randrange(n)] = -abs(x[0]) - 0.25
+                    s2 = rng.choice([0.5, 1.0, 2.0])
+                    data = _vec(rng, m, -3, 3); direction = _vec(rng, m, -2, 2)
+                    fx = mp(x); J = A + 2 * Bq * fx[None, :]; Gm = np.diag(dmp(x))
+                    Fv = A @ fx + Bq @ (fx * fx)
+                    with quiet():
+                        lik = D.Gaussian(mod, s2).to_likelihood(data)
+                        pm = _vec(rng, n, -1, 1)
+                        if target == "model":
+                            obj = None
+                        elif target == "likelihood":
+                            obj = lik
+                        elif target == "posterior":
+                            obj = D.Posterior(lik, D.Gaussian(pm, 1.0, geometry=dom))
+                        else:
+                            xx = D.Gaussian(pm, 1.0, geometry=dom, name="x")
+                            y1 = D.Gaussian(mod(xx), s2, name="y1")
+                            y2 = D.Gaussian(mod(xx), 2 * s2, name="y2")
+                            obj = D.JointDistribution(xx, y1, y2)(y1=data, y2=data)
+                    if target == "model":
+                        ln = f"lik {qv(direction)} {qm(J)} {qm(np.eye(m))} {qm(Gm)}"          # P = I, dev = direction
+                    else:
+                        ln = f"lik {qv(data - Fv)} {qm(J)} {qm(np.eye(m) / s2)} {qm(Gm)}"
+                    lines.append(ln)
+                    jobs.append((gname, mk, target, mod, obj, x, direction, pm, s2, ln))
+    outs = iter((yield lines))
+
+    for gname, mk, target, mod, obj, x, direction, pm, s2, ln in jobs:
+        mo = next(outs).split()
+        n = len(x)
+        desc = {"noninjective-geometry": gname, "model": mk, "target": target, "x": x.tolist(), "line": ln}
+        ctx.case("noninjective-geometry", desc)
+        key = f"noninjective:{gname}:{mk}:{target}"
+        if target == "model":
+            call = lambda: mod.gradient(direction, x.copy())
+            f_logd = lambda z: float(direction @ np.asarray(mod.forward(np.asarray(z, dtype=float))))
+        else:
+            call = lambda: obj.gradient(x.copy())
+            f_logd = lambda z: float(np.asarray(obj.logd(np.asarray(z, dtype=float))).ravel()[0])
+        st, exc, val = b.classify(call, n)
+        bump(f"{gname}:{mk}:{target}:{st}")
+        if st != "value":
+            ctx.disagree(key, desc, "value", f"{st}({exc})", "gradient through a geometry with its own derivative is refused")
+            ctx.fail(key, desc, "the chain-rule gradient", f"{st}({exc})", "a domain geometry supplying its own derivative is refused / no vector returned")
+            continue
+        if mo[0] == "value":
+            mg = np.array(b.decv(mo[1]))
+            if target == "posterior":
+                mg = mg - (x - pm)
+            elif target == "multi":
+                mg = mg * 1.5 - (x - pm)           # second likelihood has twice the variance: factor 1 + 1/2
+            if not b.cmp_vec(mg.tolist(), val.tolist(), 1e-8):
+                ctx.disagree(key, desc, mg.tolist(), val.tolist(), "differs from likGrad with the geometry Jacobian at x")
+        b.oracle_value(ctx, key, desc, f_logd, val, x, in_support=True)
+
+
+# ----------------------------------------------------------------------------------------------------------------
+def inplace_mutations(ctx, cuqi, reps):
+    """Parameters given as arrays are modified IN PLACE after construction and first use — through the attribute
+    (`dist.scale[i] = v`) and through the caller's array (which the object may alias) — without going through a setter.
+    Whatever the object then regards as its parameters: its gradient must be the derivative of ITS OWN current logd
+    (oracle on the same object; no assumption on whether the mutation is seen)."""
+    b = _base()
+    D = cuqi.distribution
+    from cuqi.model import LinearModel
+    rng = random.Random(ctx.seed * 67867967 + 29)
+    cov = ctx.extra_cov.setdefault("inplace_mutations", {})
+
+    def bump(k):
+        cov[k] = cov.get(k, 0) + 1
+
+    def specs(n):
+        """(name, arrays, build, x-range (lo, hi) relative to the support, {param: ('pos'|'loc'|'unit')})"""
+        def user(a):
+            c, w = a["c"], a["w"]
+            return D.UserDefinedDistribution(dim=n, logpdf_func=lambda x: -0.5 * float(np.sum(w * (x - c) ** 2)), gradient_func=lambda x: -(w * (x - c)))
+        return [
+            ("cauchy", lambda: {"location": _vec(rng, n, -1, 1), "scale": _vec(rng, n, 0.5, 2)}, lambda a: D.Cauchy(a["location"], a["scale"]), (-2, 2), {"location": "loc", "scale": "pos"}),
+            ("beta", lambda: {"alpha": _vec(rng, n, 1, 3), "beta": _vec(rng, n, 1, 3)}, lambda a: D.Beta(a["alpha"], a["beta"]), (0.25, 0.75), {"alpha": "pos", "beta": "pos"}),
+            ("invgamma", lambda: {"shape": _vec(rng, n, 1, 3), "location": _vec(rng, n, -2, -1), "scale": _vec(rng, n, 0.5, 2)},
+             lambda a: D.InverseGamma(a["shape"], a["location"], a["scale"]), (0.5, 3), {"shape": "pos", "location": "loc", "scale": "pos"}),
+            ("smoothedlaplace", lambda: {"location": _vec(rng, n, -1, 1), "scale": _vec(rng, n, 0.5, 2)},
+             lambda a: D.SmoothedLaplace(a["location"], a["scale"], 0.25), (-2, 2), {"location": "loc", "scale": "pos"}),
+            ("lognormal", lambda: {"mean": _vec(rng, n, -1, 1), "cov": _vec(rng, n, 0.5, 2)}, lambda a: D.Lognormal(a["mean"], a["cov"]), (0.5, 2.5), {"mean": "loc", "cov": "pos"}),
+            ("gaussian-cov-vector", lambda: {"mean": _vec(rng, n, -1, 1), "cov": _vec(rng, n, 0.5, 2)}, lambda a: D.Gaussian(a["mean"], cov=a["cov"]), (-2, 2), {"mean": "loc", "cov": "pos"}),
+            ("gaussian-prec-matrix", lambda: {"mean": _vec(rng, n, -1, 1), "prec": b_rand_spd(rng, n)}, lambda a: D.Gaussian(a["mean"], prec=a["prec"]), (-2, 2), {"mean": "loc", "prec": "pos"}),
+            ("gaussian-cov-matrix", lambda: {"mean": _vec(rng, n, -1, 1), "cov": b_rand_spd(rng, n)}, lambda a: D.Gaussian(a["mean"], cov=a["cov"]), (-2, 2), {"mean": "loc", "cov": "pos"}),
+            ("gaussian-sqrtcov-matrix", lambda: {"mean": _vec(rng, n, -1, 1), "sqrtcov": np.tril(_sqmat(rng, n))}, lambda a: D.Gaussian(a["mean"], sqrtcov=a["sqrtcov"]), (-2, 2), {"mean": "loc", "sqrtcov": "pos"}),
+            ("gmrf", lambda: {"mean": _vec(rng, max(n, 3), -1, 1)}, lambda a: D.GMRF(a["mean"], 2.0), (-2, 2), {"mean": "loc"}),
+            ("cmrf", lambda: {"location": _vec(rng, max(n, 3), -1, 1)}, lambda a: D.CMRF(a["location"], 0.5, geometry=len(a["location"])), (-2, 2), {"location": "loc"}),
+            ("uniform", lambda: {"low": _vec(rng, n, -2, -1), "high": _vec(rng, n, 1, 2)}, lambda a: D.Uniform(a["low"], a["high"]), (-0.75, 0.75), {"low": "loc", "high": "pos"}),
+            ("userdefined", lambda: {"c": _vec(rng, n, -1, 1), "w": _vec(rng, n, 0.5, 2)}, user, (-2, 2), {"c": "loc", "w": "pos"}),
+            ("likelihood", lambda: {"A": _sqmat(rng, n), "data": _vec(rng, n, -2, 2)}, lambda a: D.Gaussian(LinearModel(a["A"]), 0.5).to_likelihood(a["data"]), (-2, 2), {"A": "pos", "data": "loc"}),
+            ("posterior", lambda: {"A": _sqmat(rng, n), "data": _vec(rng, n, -2, 2), "mean": _vec(rng, n, -1, 1)},
+             lambda a: D.Posterior(D.Gaussian(LinearModel(a["A"]), 0.5).to_likelihood(a["data"]), D.Gaussian(a["mean"], 1.0)), (-2, 2), {"A": "pos", "data": "loc", "mean": "loc"}),
+        ]
+
+    def attr_of(obj, name, pname):
+        """the array the object exposes for this parameter (None if it has none)"""
+        try:
+            if name == "likelihood":
+                return obj.data if pname == "data" else obj.model._matrix
+            if name == "posterior":
+                return {"data": obj.likelihood.data, "A": obj.model._matrix, "mean": obj.prior.mean}[pname]
+            if name == "userdefined":
+                return None
+            return getattr(obj, pname)
+        except Exception:  # noqa
+            return None
+
+    for rep_i in range(reps):
+        n = rng.choice([2, 3])
+        for name, mk_arrays, build, (lo, hi), params in specs(n):
+            for pname, pkind in params.items():
+                for via in ("caller", "attr"):
+                    try:
+                        with quiet():
+                            arrs = mk_arrays()
+                            obj = build(arrs)
+                    except Exception as e:  # noqa
+                        ctx.note(f"inplace object refused {name}: {e!r}"[:160]); continue
+                    dim = obj.dim
+                    x = _vec(rng, dim, lo, hi, 8)
+                    f_logd = lambda z, obj=obj: float(np.asarray(obj.logd(np.asarray(z, dtype=float))).ravel()[0])
+                    st0, _, g0 = b.classify(lambda: obj.gradient(x.copy()), dim)       # first use (fills any cache)
+                    with quiet():
+                        try:
+                            f_logd(x)
+                        except Exception:  # noqa
+                            pass
+                    target = arrs[pname] if via == "caller" else attr_of(obj, name, pname)
+                    if not isinstance(target, np.ndarray) or not target.flags.writeable:
+                        continue
+                    # the in-place edit (keeps positivity / the support)
+                    if pkind == "pos":
+                        if rng.random() < 0.5:
+                            target *= rng.choice([3.0, 0.5, 2.0])
+                        else:
+                            idx = tuple(rng.randrange(s) for s in target.shape)
+                            if target.ndim == 2:
+                                idx = (idx[0], idx[0])
+                            target[idx] = target[idx] * 4.0
+                    else:
+                        target += rng.choice([0.5, -0.25, 0.125])
+                    desc = {"inplace": name, "param": pname, "via": via, "x": x.tolist(),
+                            "arrays-after": {k: np.asarray(v).tolist() for k, v in arrs.items()}}
+                    ctx.case("inplace-mutation", desc)
+                    key = f"inplace:{name}:{pname}:via-{via}"
+                    st, exc, g = b.classify(lambda: obj.gradient(x.copy()), dim)
+                    bump(f"{name}:{pname}:{via}:{st}{':changed' if (st == 'value' and st0 == 'value' and not b.cmp_vec(g0.tolist(), g.tolist(), 1e-12)) else ''}")
+                    if st == "value":
+                        b.oracle_value(ctx, key, desc, f_logd, g, x)
+                    elif st in ("none", "not-vector"):
+                        ctx.fail(key, desc, "vector or raise", st, "neither a gradient vector nor a refusal")
